@@ -199,15 +199,26 @@ impl TryFrom<&str> for FeelDaysAndTimeDuration {
       // a component that is written but not representable makes the literal invalid, it is not left out
       for (name, unit) in [("days", NANOSECONDS_IN_DAY), ("hours", NANOSECONDS_IN_HOUR), ("minutes", NANOSECONDS_IN_MINUTE), ("seconds", NANOSECONDS_IN_SECOND)] {
         if let Some(component_match) = captures.name(name) {
-          match component_match.as_str().parse::<u64>() {
-            Ok(component) => nanoseconds += (component as i128) * unit,
-            Err(_) => return Err(invalid_date_and_time_duration_literal(value.to_string())),
+          // (any number of digits, as long as the whole duration is representable: the text form of
+          // every duration, also of a sum of the longest literals, is a literal that reads back)
+          match component_match
+            .as_str()
+            .parse::<i128>()
+            .ok()
+            .and_then(|component| component.checked_mul(unit))
+            .and_then(|component_nanoseconds| nanoseconds.checked_add(component_nanoseconds))
+          {
+            Some(total) => nanoseconds = total,
+            None => return Err(invalid_date_and_time_duration_literal(value.to_string())),
           }
           is_valid = true;
         }
       }
       if let Some(fractional_match) = captures.name("fractional") {
-        nanoseconds += super::fraction_to_nanos(fractional_match.as_str()) as i128;
+        match nanoseconds.checked_add(super::fraction_to_nanos(fractional_match.as_str()) as i128) {
+          Some(total) => nanoseconds = total,
+          None => return Err(invalid_date_and_time_duration_literal(value.to_string())),
+        }
         is_valid = true;
       }
       if captures.name("sign").is_some() {
